@@ -74,6 +74,11 @@ Proof.
   unfold cc_grant. c14_break; [back_leaf|]. apply wp_bind_closed; [apply Qback_closed|]. intros oc.
   c14_go; back_leaf.
 Qed.
+Lemma jwt_bearer_grant_back w n now r : wp anyR (jwt_bearer_grant w n now r) (Qback n).
+Proof.
+  unfold jwt_bearer_grant. c14_break; [back_leaf|]. apply wp_bind_closed; [apply Qback_closed|]. intros oc.
+  c14_go; back_leaf.
+Qed.
 Lemma ciba_grant_back w n now r : wp anyR (ciba_grant w n now r) (Qback n).
 Proof.
   unfold ciba_grant. c14_break; [back_leaf|]. apply wp_bind_closed; [apply Qback_closed|]. intros oc.
@@ -255,7 +260,7 @@ Proof.
   - apply continue_auth_back.
   - apply wp_any_idx, push_auth_back.
   - apply wp_any_idx, cc_grant_back. - apply wp_any_idx, code_grant_back. - apply wp_any_idx, refresh_grant_back.
-  - unfold Qback_op; cbn; tauto. - unfold Qback_op; cbn; tauto.
+  - unfold Qback_op; cbn; tauto. - apply wp_any_idx, jwt_bearer_grant_back.
   - apply wp_any_idx, ciba_grant_back.
   - apply wp_any_idx, introspect_back.
   - apply wp_any_idx, revoke_back.
